@@ -24,7 +24,7 @@ ASSUMPTIONS = ['h2 never inspects PING payload content (LenBytes raises a harnes
 
 
 def _same(a, b):
-    return a is b or (CTX.mode != 'sym' and a == b)
+    return a is b or a == b
 
 
 def _witness(client, open_, pending):
@@ -38,10 +38,16 @@ def _witness(client, open_, pending):
     return me
 
 
+PAYLOADS = [b'AAAAAAAA', b'BBBBBBBB', b'\x00' * 8]
+
+
 def _payload(i):
-    if CTX.mode == 'sym':
-        return LenBytes(8)
-    return bytes([65 + i]) * 8
+    """one of a few concrete payloads, chosen by the solver: PINGs may repeat a payload
+    (keep-alive senders do) or differ"""
+    from engine.core import sym_choice
+    if i == 0:
+        return PAYLOADS[0]
+    return sym_choice('payload%d' % i, PAYLOADS[:i + 1])
 
 
 def h_recv(client, open_, pending, npings, other_pos):
@@ -86,6 +92,15 @@ def h_ping(client, open_):
     def h():
         with h2h.native():
             me = _witness(client, open_, False)
+        if sym_bool('ping_received_before'):
+            # history: a PING of the peer was received and answered before we ping
+            f = hf.PingFrame(0)
+            f.opaque_data = PAYLOADS[1]
+            h2h.deliver(me, [f])
+            if sym_bool('drained'):
+                me.data_to_send()
+        if sym_bool('pinged_before'):
+            me.ping(PAYLOADS[0])
         data = sym_bytes('len', 0, 16, default=8)
         out = models.Out(me)
         try:
